@@ -39,11 +39,11 @@ claim("C10", "Coq proof (host-failure tracking in the monitor semantics, for eve
       "Proof: for every host, the SZDD decompress script returns last_error = status, and status OK implies that no callback failed anywhere in the script (open/alloc NULL, read error, short or failed write, seek failure) - so an OK result is the failure-free result; wrong SZDD signatures are refused with MSPACK_ERR_SIGNATURE. Tie: identical callback traces/statuses/outputs of port and C under every single fault. CAB/CHM/KWAJ/OAB: each fired single fault on every corpus scenario is compared op by op with the failure-free run on the C side only (partial).",
       NOTE, "4/C10")
 
-claim("C08", "Coq proof (cache-coherence invariant of the decoder-reuse rule, any history) + random extraction histories vs a fresh decompressor on the C library",
-      "Proof: over an abstract folder (plaintext, optional damage point, frame granularity) and the reuse rule of cabd_extract (same folder, offset not behind the cursor, live decoder; permanent decoder errors; empty members skipped), every call after ANY history returns what a fresh decoder returns; intact folders always yield the exact slice. The rule is an abstraction of cabd_extract/chmd_extract, tied to the C by the history-vs-fresh oracle on generated cabinets, sets and CHMs (one third with a damaged folder), not by a line-by-line port.",
+claim("C08", "Coq proof (cache-coherence invariant of the decoder-reuse rule, any history; resumability of the real MSZIP port) + random and directed extraction histories vs a fresh decompressor on the C library",
+      "Proof: C08_mszip_decoder_resumable - on the ported mszipd_decompress a request for a then b bytes equals a request for a + b (output, status, stream state), for every input and state; and over an abstract folder (plaintext, optional damage point, frame granularity) and the reuse rule of cabd_extract (same folder, offset not behind the cursor, live decoder; permanent decoder errors; empty members skipped), every call after ANY history returns what a fresh decoder returns; intact folders always yield the exact slice. The rule is an abstraction of cabd_extract/chmd_extract, tied to the C by the history-vs-fresh oracle on generated cabinets, sets and CHMs (one third with a damaged folder), not by a line-by-line port.",
       NOTE, "4/C08")
 
-claim("C11", "Coq proof (bisimulation: run independent of the contents of fresh memory, for every host) on the SZDD/LZSS port + four-fill differential runs of the C library",
+claim("C11", "Coq proof (bisimulation: run independent of the contents of fresh memory, for every host) on the SZDD/LZSS port + differential runs of the C library under four (hostile inputs: ten) allocator fill patterns",
       "Proof: for every host and any two contents of freshly allocated memory the complete run of the SZDD scripts (result, every callback with its bytes, ledger) is identical. Tie: L2 correspondence. LZX (early-match rejection), MSZIP, Quantum, KWAJ-LZH, CAB and CHM paths are covered on the C side only: every corpus scenario and hostile inputs reaching unwritten memory are run under four allocator fill patterns and must give identical statuses, listings and bytes - partial.",
       NOTE, "4/C11")
 
